@@ -2,7 +2,7 @@
    for EVERY input (not only the single-corruption family), whenever a classic
    open returns Err the caller's buffer is what it was, or its written prefix is
    zero; the stream pull leaves state, buffer and tag variable untouched. *)
-From Dryoc Require Import Impl.SecretBox Impl.SecretStream Refine.Aead Refine.Stream.
+From Dryoc Require Import Impl.SecretBox Impl.SecretStream Impl.Box Refine.Aead Refine.Stream Refine.Box.
 Import SecretBoxImpl.
 Open Scope Z_scope.
 
@@ -34,6 +34,19 @@ Theorem C17_stream_pull : forall s mbuf tagvar c ad,
 Proof. exact ss_failed_pull_preserves. Qed.
 
 (* non-vacuity: a forged box through the concrete model leaves the sentinel buffer zeroed *)
+(* the public-key and sealed forms *)
+Theorem C17_box_open_easy : forall mbuf c n pk sk,
+  fst (BoxImpl.open_easy mbuf c n pk sk) = Err ->
+  snd (BoxImpl.open_easy mbuf c n pk sk) = mbuf \/
+  snd (BoxImpl.open_easy mbuf c n pk sk) = zeros (length c - 16) ++ skipn (length c - 16) mbuf.
+Proof. exact failed_box_open. Qed.
+
+Theorem C17_seal_open : forall mbuf c rpk rsk,
+  fst (BoxImpl.seal_open mbuf c rpk rsk) = Err ->
+  snd (BoxImpl.seal_open mbuf c rpk rsk) = mbuf \/
+  snd (BoxImpl.seal_open mbuf c rpk rsk) = zeros (length c - 48) ++ skipn (length c - 48) mbuf.
+Proof. exact failed_seal_open. Qed.
+
 Example C17_example :
   open_easy_c [7; 7; 7] (zeros 19) (zeros 24) (zeros 32) = (Err, [0; 0; 0]).
 Proof. vm_compute. reflexivity. Qed.
